@@ -13,7 +13,8 @@ THEOREMS = ['C03_matrix_is_I_minus_eta_L', 'C03_L_linear', 'C03_split_eq_stacked
             'C03_blockwise_eq_split', 'C03_temperature_sparse_eq_dense', 'C03_geopotential_sparse_eq_dense',
             'C03_implicit_terms_sparse_eq_dense', 'C03_time_reversed', 'C03_with_time_resolvent',
             'C03_passive_resolvent', 'C03_sw_resolvent', 'C03_sw_L_linear', 'C03_sw_time_reversed',
-            'C03_sw_side_condition', 'C03_sw_resolvent_R', 'C03_resolvent_R', 'C03_hyps_satisfiable']
+            'C03_sw_side_condition', 'C03_sw_resolvent_R', 'C03_resolvent_R', 'C03_hyps_satisfiable',
+            'C03_model_is_source', 'C03_gen_implicit_complete']
 LEVEL = 'proof'
 LEVEL_TEXT = ('machine-checked theorems (Coq) for every field, every layer count K>=1, all boundaries, reference '
               'temperatures, kappa, R, eigenvalues and step sizes of either sign: the assembled implicit matrix is '
@@ -23,8 +24,10 @@ LEVEL_TEXT = ('machine-checked theorems (Coq) for every field, every layer count
               'solve with its side condition, which always holds over the reals for Phi>=0, lambda<=0')
 LEVEL_NOTE = ('theorems are about the Gallina model Model/Implicit.v; np.linalg.inv is a parameter of the model, its '
               'left-inverse property is re-checked numerically per explored configuration (table obligation); '
-              'log(centers) and laplacian_eigenvalues enter as tables; model tied to the code by differential '
-              'correspondence on columns of every (m,l) coefficient')
+              'log(centers) and laplacian_eigenvalues enter as tables; model tied to the code twice: the numpy constructions of '
+              'alpha, G, H and the sparse weight vectors are regenerated from the AST of primitive_equations.py on every run '
+              '(Gen/ImplicitSrc.v; C03_model_is_source proves Model/Implicit.v equal to them on every in-range index), and by '
+              'differential correspondence on columns of every (m,l) coefficient')
 
 _jax = None
 def J():
